@@ -914,7 +914,7 @@ public:
     std::vector<std::string> realComponents(const sim::Options &) const override
     {
         return {"control::RRT / SST / EST / KPIECE1 / PDST / SyclopRRT / SyclopEST", "control::SpaceInformation (propagateWhileValid)",
-                "RealVectorControlSpace + samplers", "SimpleDirectedControlSampler / SteeredControlSampler", "PathControl (incl. interpolate)",
+                "RealVectorControlSpace / DiscreteControlSpace + samplers", "SimpleDirectedControlSampler / SteeredControlSampler", "PathControl (incl. interpolate)",
                 "GridDecomposition", "ProblemDefinition", "nearest-neighbour structures", "ompl::RNG (hook H1 on raw draws)"};
     }
     std::vector<std::string> stubComponents(const sim::Options &) const override
